@@ -80,7 +80,7 @@ package exif2
 //@   requires irOK(ir) && n >= 0
 //@   modifies ir.po, stream(ir.reader), ir.buffer.buf
 //@   ensures [C06] anchor(ir) == old(anchor(ir))
-//@   ensures [C06] old(ir.exifLength != 0 && ir.po <= ir.exifLength) ==> ir.po <= ir.exifLength && trk(ir) == old(trk(ir))
+//@   ensures [C06 C10 ONLY] old(ir.exifLength != 0 && ir.po <= ir.exifLength) ==> ir.po <= ir.exifLength && trk(ir) == old(trk(ir))
 //@   ensures [C02 C08] err == nil ==> pos(ir.reader) == old(pos(ir.reader)) + n
 //@   ensures [C02] pos(ir.reader) >= old(pos(ir.reader))
 //@   ensures [C01 C08] err == nil ==> len(buf) == n
@@ -93,21 +93,21 @@ package exif2
 //@   requires irOK(ir)
 //@   modifies ir.po, stream(ir.reader), ir.buffer.buf
 //@   ensures [C06] anchor(ir) == old(anchor(ir))
-//@   ensures [C06] old(ir.exifLength != 0 && ir.po <= ir.exifLength) && old(n) <= 4294967295 ==> ir.po <= ir.exifLength && trk(ir) == old(trk(ir))
+//@   ensures [C06 C10 ONLY] old(ir.exifLength != 0 && ir.po <= ir.exifLength) && old(n) <= 4294967295 ==> ir.po <= ir.exifLength && trk(ir) == old(trk(ir))
 //@   ensures [C03 C08] err == nil && n >= 0 && int(old(ir.po)) + n <= int(ir.exifLength) ==> ir.po == old(ir.po) + uint32(n)
 //@   ensures [C02] pos(ir.reader) >= old(pos(ir.reader))
 //@   loop 0 decreases ite(err == nil, n, 0)
 //@   loop 0 invariant pos(ir.reader) >= old(pos(ir.reader))
 //@   loop 0 invariant old(n) >= 0 && int(old(ir.po)) + old(n) <= int(ir.exifLength) ==> n >= 0 && ir.po + uint32(n) == old(ir.po) + uint32(old(n))
 //@   loop 0 invariant anchor(ir) == old(anchor(ir))
-//@   loop 0 invariant [C06] old(ir.exifLength != 0 && ir.po <= ir.exifLength) && old(n) <= 4294967295 ==> ir.po <= ir.exifLength && (n <= 0 || int(ir.po) + n <= int(ir.exifLength)) && trk(ir) == old(trk(ir))
+//@   loop 0 invariant [C06 C10 ONLY] old(ir.exifLength != 0 && ir.po <= ir.exifLength) && old(n) <= 4294967295 ==> ir.po <= ir.exifLength && (n <= 0 || int(ir.po) + n <= int(ir.exifLength)) && trk(ir) == old(trk(ir))
 
 //@ func (*ifdReader).readTagValue
 //@   props C01 C02 C06 C03 C04
 //@   requires irOK(ir) && ir.buffer.pos < 84
 //@   modifies ir.po, stream(ir.reader), ir.buffer.buf
 //@   ensures [C06] anchor(ir) == old(anchor(ir))
-//@   ensures [C06] old(ir.exifLength != 0 && ir.po <= ir.exifLength) ==> ir.po <= ir.exifLength && trk(ir) == old(trk(ir))
+//@   ensures [C06 C10 ONLY] old(ir.exifLength != 0 && ir.po <= ir.exifLength) ==> ir.po <= ir.exifLength && trk(ir) == old(trk(ir))
 //@   ensures [C02] err == nil ==> pos(ir.reader) >= old(pos(ir.reader)) + len(buf)
 //@   ensures [C02] pos(ir.reader) >= old(pos(ir.reader))
 //@   ensures [C01] err == nil ==> len(buf) == int(ir.buffer.tag[ir.buffer.pos].Size())
@@ -123,7 +123,7 @@ package exif2
 //@   requires irOK(ir)
 //@   modifies ir.po, stream(ir.reader), ir.buffer.buf
 //@   ensures [C06] anchor(ir) == old(anchor(ir))
-//@   ensures [C06] old(ir.exifLength != 0 && ir.po <= ir.exifLength) ==> ir.po <= ir.exifLength && trk(ir) == old(trk(ir))
+//@   ensures [C06 C10 ONLY] old(ir.exifLength != 0 && ir.po <= ir.exifLength) ==> ir.po <= ir.exifLength && trk(ir) == old(trk(ir))
 //@   ensures [C02] pos(ir.reader) >= old(pos(ir.reader))
 
 //@ func (*ifdReader).readUint16
@@ -131,7 +131,7 @@ package exif2
 //@   requires irOK(ir)
 //@   modifies ir.po, stream(ir.reader), ir.buffer.buf
 //@   ensures [C06] anchor(ir) == old(anchor(ir))
-//@   ensures [C06] old(ir.exifLength != 0 && ir.po <= ir.exifLength) ==> ir.po <= ir.exifLength && trk(ir) == old(trk(ir))
+//@   ensures [C06 C10 ONLY] old(ir.exifLength != 0 && ir.po <= ir.exifLength) ==> ir.po <= ir.exifLength && trk(ir) == old(trk(ir))
 //@   ensures [C02] r1 == nil ==> pos(ir.reader) == old(pos(ir.reader)) + 2
 //@   ensures [C02] pos(ir.reader) >= old(pos(ir.reader))
 
@@ -140,7 +140,7 @@ package exif2
 //@   requires irOK(ir)
 //@   modifies ir.po, stream(ir.reader), ir.buffer.buf
 //@   ensures [C06] anchor(ir) == old(anchor(ir))
-//@   ensures [C06] old(ir.exifLength != 0 && ir.po <= ir.exifLength) ==> ir.po <= ir.exifLength && trk(ir) == old(trk(ir))
+//@   ensures [C06 C10 ONLY] old(ir.exifLength != 0 && ir.po <= ir.exifLength) ==> ir.po <= ir.exifLength && trk(ir) == old(trk(ir))
 //@   ensures [C02] r1 == nil ==> pos(ir.reader) == old(pos(ir.reader)) + 4
 //@   ensures [C02] pos(ir.reader) >= old(pos(ir.reader))
 
@@ -169,7 +169,7 @@ package exif2
 //@   requires tagPre(ir, t)
 //@   modifies ir.po, stream(ir.reader), ir.buffer.buf
 //@   ensures [C06] anchor(ir) == old(anchor(ir))
-//@   ensures [C06] old(ir.exifLength != 0 && ir.po <= ir.exifLength) ==> ir.po <= ir.exifLength && trk(ir) == old(trk(ir))
+//@   ensures [C06 C10 ONLY] old(ir.exifLength != 0 && ir.po <= ir.exifLength) ==> ir.po <= ir.exifLength && trk(ir) == old(trk(ir))
 //@   ensures [C02] pos(ir.reader) >= old(pos(ir.reader))
 
 //@ func (*ifdReader).ParseDate
@@ -177,7 +177,7 @@ package exif2
 //@   requires tagPre(ir, t)
 //@   modifies ir.po, stream(ir.reader), ir.buffer.buf
 //@   ensures [C06] anchor(ir) == old(anchor(ir))
-//@   ensures [C06] old(ir.exifLength != 0 && ir.po <= ir.exifLength) ==> ir.po <= ir.exifLength && trk(ir) == old(trk(ir))
+//@   ensures [C06 C10 ONLY] old(ir.exifLength != 0 && ir.po <= ir.exifLength) ==> ir.po <= ir.exifLength && trk(ir) == old(trk(ir))
 //@   ensures [C02] pos(ir.reader) >= old(pos(ir.reader))
 
 //@ func (*ifdReader).ParseGPSAltitude
@@ -185,7 +185,7 @@ package exif2
 //@   requires tagPre(ir, t)
 //@   modifies ir.po, stream(ir.reader), ir.buffer.buf
 //@   ensures [C06] anchor(ir) == old(anchor(ir))
-//@   ensures [C06] old(ir.exifLength != 0 && ir.po <= ir.exifLength) ==> ir.po <= ir.exifLength && trk(ir) == old(trk(ir))
+//@   ensures [C06 C10 ONLY] old(ir.exifLength != 0 && ir.po <= ir.exifLength) ==> ir.po <= ir.exifLength && trk(ir) == old(trk(ir))
 //@   ensures [C02] pos(ir.reader) >= old(pos(ir.reader))
 //@   ensures [C03] isRatN(t, 1) ==> same(r0, float32(0)) || same(r0, float32(vnum(ir, t, 0))/float32(vnum(ir, t, 1)))
 //@   ensures [C03] !isRatN(t, 1) ==> same(r0, float32(0)) && pos(ir.reader) == old(pos(ir.reader))
@@ -201,7 +201,7 @@ package exif2
 //@   requires tagPre(ir, t)
 //@   modifies ir.po, stream(ir.reader), ir.buffer.buf
 //@   ensures [C06] anchor(ir) == old(anchor(ir))
-//@   ensures [C06] old(ir.exifLength != 0 && ir.po <= ir.exifLength) ==> ir.po <= ir.exifLength && trk(ir) == old(trk(ir))
+//@   ensures [C06 C10 ONLY] old(ir.exifLength != 0 && ir.po <= ir.exifLength) ==> ir.po <= ir.exifLength && trk(ir) == old(trk(ir))
 //@   ensures [C02] pos(ir.reader) >= old(pos(ir.reader))
 //@   // degrees + minutes/60 + seconds/3600 from three RATIONALs (Exif 2.32 4.6.6, GPSLatitude/GPSLongitude); the hemisphere sign is applied by GPSInfo.Latitude/Longitude
 //@   ensures [C03] isRatN(t, 3) && t.ByteOrder == utils.BigEndian ==> same(r0, float64(0)) || same(r0, float64(vnumBE(ir, t, 0))/float64(vnumBE(ir, t, 1)) + float64(vnumBE(ir, t, 2))/float64(vnumBE(ir, t, 3))/60.0 + float64(vnumBE(ir, t, 4))/float64(vnumBE(ir, t, 5))/3600.0)
@@ -213,7 +213,7 @@ package exif2
 //@   requires tagPre(ir, t)
 //@   modifies ir.po, stream(ir.reader), ir.buffer.buf
 //@   ensures [C06] anchor(ir) == old(anchor(ir))
-//@   ensures [C06] old(ir.exifLength != 0 && ir.po <= ir.exifLength) ==> ir.po <= ir.exifLength && trk(ir) == old(trk(ir))
+//@   ensures [C06 C10 ONLY] old(ir.exifLength != 0 && ir.po <= ir.exifLength) ==> ir.po <= ir.exifLength && trk(ir) == old(trk(ir))
 //@   ensures [C02] pos(ir.reader) >= old(pos(ir.reader))
 
 // C03 values stored out of line: a RATIONAL is two 32-bit numbers (numerator, denominator) in the directory's byte order
@@ -230,7 +230,7 @@ package exif2
 //@   requires tagPre(ir, t)
 //@   modifies ir.po, stream(ir.reader), ir.buffer.buf
 //@   ensures [C06] anchor(ir) == old(anchor(ir))
-//@   ensures [C06] old(ir.exifLength != 0 && ir.po <= ir.exifLength) ==> ir.po <= ir.exifLength && trk(ir) == old(trk(ir))
+//@   ensures [C06 C10 ONLY] old(ir.exifLength != 0 && ir.po <= ir.exifLength) ==> ir.po <= ir.exifLength && trk(ir) == old(trk(ir))
 //@   ensures [C02] pos(ir.reader) >= old(pos(ir.reader))
 //@   ensures [C03] isRat(t) ==> (r0[0] == 0 && r0[1] == 0) || (r0[0] == ratNum(ir, t) && r0[1] == ratDen(ir, t))
 //@   ensures [C03] !(t.Type == tag.TypeRational || t.Type == tag.TypeSignedRational) ==> r0[0] == 0 && r0[1] == 0 && pos(ir.reader) == old(pos(ir.reader))
@@ -243,7 +243,7 @@ package exif2
 //@   requires tagPre(ir, t)
 //@   modifies ir.po, stream(ir.reader), ir.buffer.buf
 //@   ensures [C06] anchor(ir) == old(anchor(ir))
-//@   ensures [C06] old(ir.exifLength != 0 && ir.po <= ir.exifLength) ==> ir.po <= ir.exifLength && trk(ir) == old(trk(ir))
+//@   ensures [C06 C10 ONLY] old(ir.exifLength != 0 && ir.po <= ir.exifLength) ==> ir.po <= ir.exifLength && trk(ir) == old(trk(ir))
 //@   ensures [C02] pos(ir.reader) >= old(pos(ir.reader))
 //@   ensures [C03 C04] isAsciiOut(t) ==> (forall k int :: 0 <= k && k < len(r0) ==> r0[k] == data(ir.reader, vstart(ir, t) + k)) || (forall k int :: 0 <= k && k < len(r0) ==> r0[k] == data(ir.reader, pos(ir.reader) + k))
 //@   ensures [C03] isAsciiOut(t) && len(r0) > 0 ==> !isTrim(r0[len(r0)-1])
@@ -253,7 +253,7 @@ package exif2
 //@   requires tagPre(ir, t)
 //@   modifies ir.po, stream(ir.reader), ir.buffer.buf
 //@   ensures [C06] anchor(ir) == old(anchor(ir))
-//@   ensures [C06] old(ir.exifLength != 0 && ir.po <= ir.exifLength) ==> ir.po <= ir.exifLength && trk(ir) == old(trk(ir))
+//@   ensures [C06 C10 ONLY] old(ir.exifLength != 0 && ir.po <= ir.exifLength) ==> ir.po <= ir.exifLength && trk(ir) == old(trk(ir))
 //@   ensures [C02] pos(ir.reader) >= old(pos(ir.reader))
 //@   ensures [C03 C04] isAsciiOut(t) ==> forall k int :: 0 <= k && k < len(r0) ==> r0[k] == data(ir.reader, vstart(ir, t) + k)
 //@   ensures [C03] isAsciiOut(t) && len(r0) > 0 ==> len(r0) <= int(t.Size()) && !isTrim(r0[len(r0)-1])
@@ -264,7 +264,7 @@ package exif2
 //@   requires tagPre(ir, t)
 //@   modifies ir.po, stream(ir.reader), ir.buffer.buf
 //@   ensures [C06] anchor(ir) == old(anchor(ir))
-//@   ensures [C06] old(ir.exifLength != 0 && ir.po <= ir.exifLength) ==> ir.po <= ir.exifLength && trk(ir) == old(trk(ir))
+//@   ensures [C06 C10 ONLY] old(ir.exifLength != 0 && ir.po <= ir.exifLength) ==> ir.po <= ir.exifLength && trk(ir) == old(trk(ir))
 //@   ensures [C02] pos(ir.reader) >= old(pos(ir.reader))
 
 //@ func (*ifdReader).parseAperture
@@ -272,7 +272,7 @@ package exif2
 //@   requires tagPre(ir, t)
 //@   modifies ir.po, stream(ir.reader), ir.buffer.buf
 //@   ensures [C06] anchor(ir) == old(anchor(ir))
-//@   ensures [C06] old(ir.exifLength != 0 && ir.po <= ir.exifLength) ==> ir.po <= ir.exifLength && trk(ir) == old(trk(ir))
+//@   ensures [C06 C10 ONLY] old(ir.exifLength != 0 && ir.po <= ir.exifLength) ==> ir.po <= ir.exifLength && trk(ir) == old(trk(ir))
 //@   ensures [C02] pos(ir.reader) >= old(pos(ir.reader))
 //@   ensures [C03] isRat(t) ==> same(r0, meta.Aperture(float32(uint32(0)) / float32(uint32(0)))) || same(r0, meta.Aperture(float32(ratNum(ir, t)) / float32(ratDen(ir, t))))
 //@   ensures [C03] !(t.Type == tag.TypeRational || t.Type == tag.TypeSignedRational) ==> r0 == 0
@@ -282,7 +282,7 @@ package exif2
 //@   requires tagPre(ir, t)
 //@   modifies ir.po, stream(ir.reader), ir.buffer.buf
 //@   ensures [C06] anchor(ir) == old(anchor(ir))
-//@   ensures [C06] old(ir.exifLength != 0 && ir.po <= ir.exifLength) ==> ir.po <= ir.exifLength && trk(ir) == old(trk(ir))
+//@   ensures [C06 C10 ONLY] old(ir.exifLength != 0 && ir.po <= ir.exifLength) ==> ir.po <= ir.exifLength && trk(ir) == old(trk(ir))
 //@   ensures [C02] pos(ir.reader) >= old(pos(ir.reader))
 //@   ensures [C03] isRat(t) ==> r0 == meta.NewExposureBias(0, 0) || r0 == meta.NewExposureBias(int16(ratNum(ir, t)), int16(ratDen(ir, t)))
 
@@ -291,7 +291,7 @@ package exif2
 //@   requires tagPre(ir, t)
 //@   modifies ir.po, stream(ir.reader), ir.buffer.buf
 //@   ensures [C06] anchor(ir) == old(anchor(ir))
-//@   ensures [C06] old(ir.exifLength != 0 && ir.po <= ir.exifLength) ==> ir.po <= ir.exifLength && trk(ir) == old(trk(ir))
+//@   ensures [C06 C10 ONLY] old(ir.exifLength != 0 && ir.po <= ir.exifLength) ==> ir.po <= ir.exifLength && trk(ir) == old(trk(ir))
 //@   ensures [C02] pos(ir.reader) >= old(pos(ir.reader))
 //@   ensures [C03] isRat(t) ==> same(r0, meta.ExposureTime(float32(uint32(0)) / float32(uint32(0)))) || same(r0, meta.ExposureTime(float32(ratNum(ir, t)) / float32(ratDen(ir, t))))
 //@   ensures [C03] !(t.Type == tag.TypeRational || t.Type == tag.TypeSignedRational) ==> r0 == 0
@@ -301,7 +301,7 @@ package exif2
 //@   requires tagPre(ir, t)
 //@   modifies ir.po, stream(ir.reader), ir.buffer.buf
 //@   ensures [C06] anchor(ir) == old(anchor(ir))
-//@   ensures [C06] old(ir.exifLength != 0 && ir.po <= ir.exifLength) ==> ir.po <= ir.exifLength && trk(ir) == old(trk(ir))
+//@   ensures [C06 C10 ONLY] old(ir.exifLength != 0 && ir.po <= ir.exifLength) ==> ir.po <= ir.exifLength && trk(ir) == old(trk(ir))
 //@   ensures [C02] pos(ir.reader) >= old(pos(ir.reader))
 //@   ensures [C03] isRat(t) ==> same(r0, meta.FocalLength(float32(uint32(0)) / float32(uint32(0)))) || same(r0, meta.FocalLength(float32(ratNum(ir, t)) / float32(ratDen(ir, t))))
 //@   ensures [C03] t.Type == tag.TypeShort || t.Type == tag.TypeLong ==> same(r0, meta.FocalLength(float32(u32val(t)) / float32(uint32(1))))
@@ -311,7 +311,7 @@ package exif2
 //@   requires tagPre(ir, t)
 //@   modifies ir.po, stream(ir.reader), ir.buffer.buf
 //@   ensures [C06] anchor(ir) == old(anchor(ir))
-//@   ensures [C06] old(ir.exifLength != 0 && ir.po <= ir.exifLength) ==> ir.po <= ir.exifLength && trk(ir) == old(trk(ir))
+//@   ensures [C06 C10 ONLY] old(ir.exifLength != 0 && ir.po <= ir.exifLength) ==> ir.po <= ir.exifLength && trk(ir) == old(trk(ir))
 //@   ensures [C02] pos(ir.reader) >= old(pos(ir.reader))
 
 //@ func (*ifdReader).parseGPSTimeStamp
@@ -319,7 +319,7 @@ package exif2
 //@   requires tagPre(ir, t)
 //@   modifies ir.po, stream(ir.reader), ir.buffer.buf
 //@   ensures [C06] anchor(ir) == old(anchor(ir))
-//@   ensures [C06] old(ir.exifLength != 0 && ir.po <= ir.exifLength) ==> ir.po <= ir.exifLength && trk(ir) == old(trk(ir))
+//@   ensures [C06 C10 ONLY] old(ir.exifLength != 0 && ir.po <= ir.exifLength) ==> ir.po <= ir.exifLength && trk(ir) == old(trk(ir))
 //@   ensures [C02] pos(ir.reader) >= old(pos(ir.reader))
 //@   // hours, minutes, seconds as three RATIONALs -> seconds of the day (whole-number quotients; a zero denominator contributes 0).
 //@   // The six numbers are exposed as ghost results so that 'read correctly' and 'combined correctly' are separate obligations.
@@ -340,7 +340,7 @@ package exif2
 //@   requires tagPre(ir, t)
 //@   modifies ir.po, stream(ir.reader), ir.buffer.buf
 //@   ensures [C06] anchor(ir) == old(anchor(ir))
-//@   ensures [C06] old(ir.exifLength != 0 && ir.po <= ir.exifLength) ==> ir.po <= ir.exifLength && trk(ir) == old(trk(ir))
+//@   ensures [C06 C10 ONLY] old(ir.exifLength != 0 && ir.po <= ir.exifLength) ==> ir.po <= ir.exifLength && trk(ir) == old(trk(ir))
 //@   ensures [C02] pos(ir.reader) >= old(pos(ir.reader))
 
 //@ func (*ifdReader).ParseCameraModel
@@ -348,7 +348,7 @@ package exif2
 //@   requires tagPre(ir, t)
 //@   modifies ir.po, stream(ir.reader), ir.buffer.buf, ir.Exif.CameraModel
 //@   ensures [C06] anchor(ir) == old(anchor(ir))
-//@   ensures [C06] old(ir.exifLength != 0 && ir.po <= ir.exifLength) ==> ir.po <= ir.exifLength && trk(ir) == old(trk(ir))
+//@   ensures [C06 C10 ONLY] old(ir.exifLength != 0 && ir.po <= ir.exifLength) ==> ir.po <= ir.exifLength && trk(ir) == old(trk(ir))
 //@   ensures [C02] pos(ir.reader) >= old(pos(ir.reader))
 
 // C03 text values: the reported text is the value without its trailing NUL / blank / newline bytes (Exif 2.32 4.6.2: ASCII
@@ -383,7 +383,7 @@ package exif2
 //@   requires tagPre(ir, t)
 //@   modifies ir.po, stream(ir.reader), ir.buffer.buf, ir.Exif
 //@   ensures [C06] anchor(ir) == old(anchor(ir))
-//@   ensures [C06] old(ir.exifLength != 0 && ir.po <= ir.exifLength) ==> ir.po <= ir.exifLength && trk(ir) == old(trk(ir))
+//@   ensures [C06 C10 ONLY] old(ir.exifLength != 0 && ir.po <= ir.exifLength) ==> ir.po <= ir.exifLength && trk(ir) == old(trk(ir))
 //@   ensures [C02] pos(ir.reader) >= old(pos(ir.reader))
 //@   ensures [C03] ir.customTagParser == nil && (t.Ifd == ifds.IFD0 && t.ID == ifds.Orientation) ==> ir.Exif.Orientation == meta.Orientation(u16val(t))
 //@   ensures [C03] ir.customTagParser == nil && (t.Ifd == ifds.IFD0 && t.ID == ifds.StripOffsets) ==> ir.Exif.StripOffsets == u32val(t)
@@ -441,7 +441,7 @@ package exif2
 //@   requires irOK(ir)
 //@   modifies ir.po, stream(ir.reader), ir.buffer.buf, ir.buffer.len, ir.buffer.tag
 //@   ensures [C06] anchor(ir) == old(anchor(ir))
-//@   ensures [C06] old(ir.exifLength != 0 && ir.po <= ir.exifLength) ==> ir.po <= ir.exifLength && trk(ir) == old(trk(ir))
+//@   ensures [C06 C10 ONLY] old(ir.exifLength != 0 && ir.po <= ir.exifLength) ==> ir.po <= ir.exifLength && trk(ir) == old(trk(ir))
 //@   ensures [C02] pos(ir.reader) >= old(pos(ir.reader))
 //@   ensures [C02] ir.buffer.len > old(ir.buffer.len) ==> pos(ir.reader) > old(pos(ir.reader))
 //@   ensures ir.buffer.len <= 84 && ir.buffer.len >= old(ir.buffer.len)
@@ -453,13 +453,13 @@ package exif2
 //@   requires irOK(ir) && ir.buffer.pos == 0
 //@   modifies ir.po, stream(ir.reader), ir.buffer.buf, ir.buffer.len, ir.buffer.tag, ir.Exif
 //@   ensures [C06] anchor(ir) == old(anchor(ir))
-//@   ensures [C06] old(ir.exifLength != 0 && ir.po <= ir.exifLength) ==> ir.po <= ir.exifLength && trk(ir) == old(trk(ir))
+//@   ensures [C06 C10 ONLY] old(ir.exifLength != 0 && ir.po <= ir.exifLength) ==> ir.po <= ir.exifLength && trk(ir) == old(trk(ir))
 //@   ensures [C02] pos(ir.reader) >= old(pos(ir.reader))
 //@   ensures [C02] ir.buffer.len > old(ir.buffer.len) ==> pos(ir.reader) > old(pos(ir.reader))
 //@   ensures ir.buffer.len <= 84 && ir.buffer.len >= old(ir.buffer.len)
 //@   loop 0 invariant 0 <= i && ir.buffer.len <= 84 && ir.buffer.len >= old(ir.buffer.len) && pos(ir.reader) > old(pos(ir.reader))
 //@   loop 0 invariant anchor(ir) == old(anchor(ir))
-//@   loop 0 invariant [C06] old(ir.exifLength != 0 && ir.po <= ir.exifLength) ==> ir.po <= ir.exifLength && trk(ir) == old(trk(ir))
+//@   loop 0 invariant [C06 C10 ONLY] old(ir.exifLength != 0 && ir.po <= ir.exifLength) ==> ir.po <= ir.exifLength && trk(ir) == old(trk(ir))
 //@   requires [C03] sortedTags(ir.buffer)
 //@   ensures [C03] sortedTags(ir.buffer)
 //@   loop 0 invariant [C03] sortedTags(ir.buffer)
@@ -469,14 +469,14 @@ package exif2
 //@   requires tagPre(ir, t)
 //@   modifies ir.po, stream(ir.reader), ir.buffer.buf, ir.buffer.len, ir.buffer.tag
 //@   ensures [C06] anchor(ir) == old(anchor(ir))
-//@   ensures [C06] old(ir.exifLength != 0 && ir.po <= ir.exifLength) ==> ir.po <= ir.exifLength && trk(ir) == old(trk(ir))
+//@   ensures [C06 C10 ONLY] old(ir.exifLength != 0 && ir.po <= ir.exifLength) ==> ir.po <= ir.exifLength && trk(ir) == old(trk(ir))
 //@   ensures [C02] pos(ir.reader) >= old(pos(ir.reader))
 //@   ensures [C02] ir.buffer.len > old(ir.buffer.len) ==> pos(ir.reader) > old(pos(ir.reader))
 //@   ensures ir.buffer.len <= 84 && ir.buffer.len >= old(ir.buffer.len)
 //@   loop 0 invariant 0 <= i && ir.buffer.len <= 84 && ir.buffer.len >= old(ir.buffer.len) && pos(ir.reader) >= old(pos(ir.reader)) && (len(buf) > 0 ==> pos(ir.reader) > old(pos(ir.reader))) && (i > 0 ==> len(buf) >= 4) && (i == 0 ==> ir.buffer.len == old(ir.buffer.len))
 //@   loop 0 decreases int(t.UnitCount) - i
 //@   loop 0 invariant anchor(ir) == old(anchor(ir))
-//@   loop 0 invariant [C06] old(ir.exifLength != 0 && ir.po <= ir.exifLength) ==> ir.po <= ir.exifLength && trk(ir) == old(trk(ir))
+//@   loop 0 invariant [C06 C10 ONLY] old(ir.exifLength != 0 && ir.po <= ir.exifLength) ==> ir.po <= ir.exifLength && trk(ir) == old(trk(ir))
 //@   requires [C03] sortedTags(ir.buffer)
 //@   ensures [C03] sortedTags(ir.buffer)
 //@   loop 0 invariant [C03] sortedTags(ir.buffer)
@@ -486,7 +486,7 @@ package exif2
 //@   requires irOK(ir) && ir.buffer.pos == 0
 //@   modifies ir.po, stream(ir.reader), ir.buffer.buf, ir.buffer.len, ir.buffer.tag, ir.Exif
 //@   ensures [C06] anchor(ir) == old(anchor(ir))
-//@   ensures [C06] old(ir.exifLength != 0 && ir.po <= ir.exifLength) ==> ir.po <= ir.exifLength && trk(ir) == old(trk(ir))
+//@   ensures [C06 C10 ONLY] old(ir.exifLength != 0 && ir.po <= ir.exifLength) ==> ir.po <= ir.exifLength && trk(ir) == old(trk(ir))
 //@   ensures [C02] pos(ir.reader) >= old(pos(ir.reader))
 //@   ensures [C02] ir.buffer.len > old(ir.buffer.len) ==> pos(ir.reader) > old(pos(ir.reader))
 //@   ensures ir.buffer.len <= 84 && ir.buffer.len >= old(ir.buffer.len)
@@ -498,13 +498,13 @@ package exif2
 //@   requires irOK(ir) && ir.buffer.pos == 0
 //@   modifies ir.po, stream(ir.reader), ir.buffer.buf, ir.buffer.len, ir.buffer.pos, ir.buffer.tag, ir.Exif
 //@   ensures [C06] anchor(ir) == old(anchor(ir))
-//@   ensures [C06] old(ir.exifLength != 0 && ir.po <= ir.exifLength) ==> ir.po <= ir.exifLength && trk(ir) == old(trk(ir))
+//@   ensures [C06 C10 ONLY] old(ir.exifLength != 0 && ir.po <= ir.exifLength) ==> ir.po <= ir.exifLength && trk(ir) == old(trk(ir))
 //@   ensures [C02] pos(ir.reader) >= old(pos(ir.reader))
 //@   ensures irOK(ir)
 //@   loop 0 invariant irOK(ir) && (ir.buffer.pos < ir.buffer.len ==> t == ir.buffer.tag[ir.buffer.pos]) && pos(ir.reader) >= old(pos(ir.reader))
 //@   loop 0 decreases lim(ir.reader) - pos(ir.reader), ir.buffer.len - ir.buffer.pos
 //@   loop 0 invariant anchor(ir) == old(anchor(ir))
-//@   loop 0 invariant [C06] old(ir.exifLength != 0 && ir.po <= ir.exifLength) ==> ir.po <= ir.exifLength && trk(ir) == old(trk(ir))
+//@   loop 0 invariant [C06 C10 ONLY] old(ir.exifLength != 0 && ir.po <= ir.exifLength) ==> ir.po <= ir.exifLength && trk(ir) == old(trk(ir))
 //@   requires [C03] sortedTags(ir.buffer)
 //@   ensures [C03] sortedTags(ir.buffer)
 //@   loop 0 invariant [C03] sortedTags(ir.buffer)
@@ -586,7 +586,7 @@ package exif2
 //@   modifies as(p, "*exif2.ifdReader").po, stream(as(p, "*exif2.ifdReader").reader), as(p, "*exif2.ifdReader").buffer.buf, as(p, "*exif2.ifdReader").Exif
 //@   ensures pos(as(p, "*exif2.ifdReader").reader) >= old(pos(as(p, "*exif2.ifdReader").reader))
 //@   ensures [C06] anchor(as(p, "*exif2.ifdReader")) == old(anchor(as(p, "*exif2.ifdReader")))
-//@   ensures [C06] old(as(p, "*exif2.ifdReader").exifLength != 0 && as(p, "*exif2.ifdReader").po <= as(p, "*exif2.ifdReader").exifLength) ==> as(p, "*exif2.ifdReader").po <= as(p, "*exif2.ifdReader").exifLength && trk(as(p, "*exif2.ifdReader")) == old(trk(as(p, "*exif2.ifdReader")))
+//@   ensures [C06 C10 ONLY] old(as(p, "*exif2.ifdReader").exifLength != 0 && as(p, "*exif2.ifdReader").po <= as(p, "*exif2.ifdReader").exifLength) ==> as(p, "*exif2.ifdReader").po <= as(p, "*exif2.ifdReader").exifLength && trk(as(p, "*exif2.ifdReader")) == old(trk(as(p, "*exif2.ifdReader")))
 
 // Log marshaler of the pending-tag buffer (C15: code that only runs at low log levels must be safe, too).
 //@ func (*buffer).MarshalZerologArray
